@@ -72,3 +72,56 @@ func C06StaleTip(a, b *c06node) bool {
 	a.delNeighbor(b)
 	return !a.Tip()
 }
+
+// ROOT-ONCE controls.
+type c02tree struct{ root *c02node }
+
+func (t *c02tree) SetRoot(n *c02node) { t.root = n }
+
+type c02stack struct{ elt []*c02node }
+
+func (s *c02stack) Head() (*c02node, error) {
+	if len(s.elt) == 0 {
+		return nil, nil
+	}
+	return s.elt[len(s.elt)-1], nil
+}
+
+func c02newnode() *c02node { return &c02node{} }
+
+// C02RootTwice: `node` is refilled from the stack (nil when empty): the root can be set again.
+func C02RootTwice(t *c02tree, toks []int, st *c02stack) {
+	var node *c02node
+	for _, tok := range toks {
+		switch tok {
+		case 0:
+			if node == nil {
+				node = c02newnode()
+				t.SetRoot(node)
+			}
+		case 1:
+			node, _ = st.Head()
+		}
+	}
+}
+
+// C02RootLatched: same loop, guarded by a counter that only grows.
+func C02RootLatched(t *c02tree, toks []int, st *c02stack) {
+	var node *c02node
+	n := 0
+	for _, tok := range toks {
+		switch tok {
+		case 0:
+			if node == nil {
+				if n > 0 {
+					return
+				}
+				node = c02newnode()
+				n++
+				t.SetRoot(node)
+			}
+		case 1:
+			node, _ = st.Head()
+		}
+	}
+}
